@@ -51,7 +51,10 @@ var (
 	pubStr = map[int]string{1: "2020-01-01T00:00:00Z", 2: "2020-01-02T00:00:00Z", 3: "2020-01-03T00:00:00Z", 9: "2999-01-01T00:00:00Z"}
 )
 
-const stepTimeout = 30 * time.Second
+const (
+	stepTimeout = 30 * time.Second
+	userAgent   = "verif-x08/1"
+)
 
 type doc struct {
 	Tag  int    `json:"tag"`
@@ -247,6 +250,9 @@ func serve(rw http.ResponseWriter, rq *http.Request) {
 	w := wv.(*world)
 	k, a, v := classify(parts[2])
 	w.mu.Lock()
+	if rq.UserAgent() != userAgent {
+		w.odd++ // "set user agent"
+	}
 	w.reqs = append(w.reqs, req{U: u, K: k, A: a, V: v})
 	mode := "404"
 	var body []byte
@@ -293,6 +299,7 @@ func (w *world) newRegistry() error {
 		Online:           w.cfg.Online,
 		UsePreReleases:   w.cfg.UsePre,
 		UpdateURLs:       w.urls[:w.cfg.NUrls],
+		UserAgent:        userAgent,
 		MandatoryUpdates: mand,
 	}
 	reg.StateNotifyFunc = func(s *updater.RegistryState) {
@@ -404,6 +411,11 @@ func (w *world) exec(o op) (r res) {
 		}
 	}()
 	ctx := context.Background()
+	if o.Mode == "cancelled" {
+		c, cancel := context.WithCancel(ctx)
+		cancel()
+		ctx = c
+	}
 	switch o.Op {
 	case "SetIndex":
 		if o.U < 1 || o.U > 2 || o.I < 1 || o.I > 2 {
@@ -430,6 +442,7 @@ func (w *world) exec(o op) (r res) {
 		w.reg.Lock()
 		w.reg.Online = o.Flag
 		w.reg.Unlock()
+		w.cfg.Online = o.Flag // a restarted registry keeps the setting
 		return res{}
 	case "UpdateIndexes":
 		if err := w.reg.UpdateIndexes(ctx); err != nil {
